@@ -37,11 +37,19 @@ type access struct {
 	what   string
 }
 
+// poolRec: an object was Put by one request and later handed out by Get to
+// another one; sync.Pool orders the Put before the Get.
+type poolRec struct {
+	putThread, putIdx int
+	getThread, getIdx int
+}
+
 type concState struct {
 	on       bool
 	shared   map[interface{}]string
 	owner    map[interface{}]int
 	ownerIdx map[interface{}]int // program-order index of the allocation in the owner's trace
+	poolCell map[interface{}][]*poolRec // cells of objects that went through a sync.Pool
 	thread   int
 	counter  map[int]int
 	held     map[int][]*lockSection
@@ -51,7 +59,7 @@ type concState struct {
 }
 
 func newConcState() *concState {
-	return &concState{shared: map[interface{}]string{}, owner: map[interface{}]int{}, ownerIdx: map[interface{}]int{}, counter: map[int]int{},
+	return &concState{shared: map[interface{}]string{}, owner: map[interface{}]int{}, ownerIdx: map[interface{}]int{}, poolCell: map[interface{}][]*poolRec{}, counter: map[int]int{},
 		held: map[int][]*lockSection{}, seenAcc: map[string]bool{}}
 }
 
@@ -144,6 +152,73 @@ func (c *concState) relevant(addr interface{}) bool {
 		return true
 	}
 	return false
+}
+
+// leafCells lists the cells of the object p points to (nested structs and
+// arrays included, pointers and slices not followed).
+func leafCells(p *value, out *[]*value) {
+	if p == nil {
+		return
+	}
+	switch inner := (*p).(type) {
+	case structure:
+		for k := range inner {
+			leafCells(&inner[k], out)
+		}
+	case array:
+		for k := range inner {
+			leafCells(&inner[k], out)
+		}
+	default:
+		*out = append(*out, p)
+	}
+}
+
+// poolPut / poolGet record the hand-over of an object through a sync.Pool.
+func (i *interpreter) poolPut(obj value) {
+	c := i.conc
+	if c == nil || !c.on || c.thread == 0 {
+		return
+	}
+	var p *value
+	switch o := obj.(type) {
+	case iface:
+		p, _ = o.v.(*value)
+	case *value:
+		p = o
+	}
+	var cells []*value
+	leafCells(p, &cells)
+	rec := &poolRec{putThread: c.thread, putIdx: c.tick()}
+	for _, cell := range cells {
+		c.poolCell[cell] = append(c.poolCell[cell], rec)
+		c.shared[cell] = "pooled object"
+	}
+}
+
+func (i *interpreter) poolGet(obj value) {
+	c := i.conc
+	if c == nil || !c.on || c.thread == 0 {
+		return
+	}
+	var p *value
+	switch o := obj.(type) {
+	case iface:
+		p, _ = o.v.(*value)
+	case *value:
+		p = o
+	}
+	var cells []*value
+	leafCells(p, &cells)
+	idx := c.tick()
+	for _, cell := range cells {
+		c.shared[cell] = "pooled object"
+		if recs := c.poolCell[cell]; len(recs) > 0 {
+			if rec := recs[len(recs)-1]; rec.getThread == 0 && rec.putThread != c.thread {
+				rec.getThread, rec.getIdx = c.thread, idx
+			}
+		}
+	}
 }
 
 func (i *interpreter) noteAlloc(p interface{}) {
@@ -239,6 +314,23 @@ func (i *interpreter) lockOp(name string, p *value, fr *frame) {
 	}
 }
 
+// orderedByPool: access x happens before its thread Puts the object and access y
+// after the other thread's matching Get (program order + Put-before-Get).
+func (i *interpreter) orderedByPool(a, b access) bool {
+	for _, rec := range i.conc.poolCell[a.addr] {
+		if rec.getThread == 0 {
+			continue
+		}
+		if rec.putThread == a.thread && rec.getThread == b.thread && a.idx < rec.putIdx && b.idx > rec.getIdx {
+			return true
+		}
+		if rec.putThread == b.thread && rec.getThread == a.thread && b.idx < rec.putIdx && a.idx > rec.getIdx {
+			return true
+		}
+	}
+	return false
+}
+
 // raceQuery builds the clock formula for two conflicting accesses and asks
 // the solver whether they can happen at the same logical time.
 func (i *interpreter) raceQuery(a, b access) string {
@@ -330,6 +422,23 @@ func (i *interpreter) raceQuery(a, b access) string {
 			cons = append(cons, ts.Ult(sy.rel, sx.acq))
 		}
 	}
+	// sync.Pool: the Put of an object happens before the Get that hands it out
+	for _, rec := range c.poolCell[a.addr] {
+		if rec.getThread == 0 || !((rec.putThread == a.thread && rec.getThread == b.thread) || (rec.putThread == b.thread && rec.getThread == a.thread)) {
+			continue
+		}
+		cput := clock(rec.putThread, rec.putIdx, "put")
+		cget := clock(rec.getThread, rec.getIdx, "get")
+		// re-establish program order including the two new points
+		for _, th := range []int{a.thread, b.thread} {
+			ps := pts[th]
+			sort.Slice(ps, func(x, y int) bool { return ps[x].idx < ps[y].idx })
+			for k := 0; k+1 < len(ps); k++ {
+				cons = append(cons, ts.Ult(ps[k].t, ps[k+1].t))
+			}
+		}
+		cons = append(cons, ts.Ult(cput, cget))
+	}
 	cons = append(cons, ts.Eq(ca, cb))
 	f := ts.And(cons...)
 	if f.IsFalse() {
@@ -377,6 +486,14 @@ func init() {
 				}
 				done[key] = true
 				npairs++
+				// both accesses on a pooled object, one before its Put and the other after the
+				// matching Get: ordered by the pool's hand-over, no query needed
+				if fr.i.orderedByPool(a, b) {
+					ex.stats.Obligations++
+					ex.stats.Discharged++
+					ex.stats.Covers["C03 pairs ordered by the sync.Pool hand-over"]++
+					continue
+				}
 				r := fr.i.raceQuery(a, b)
 				kind := func(w bool) string {
 					if w {
@@ -406,5 +523,20 @@ func init() {
 		ex.stats.Covers[fmt.Sprintf("C03 conflicting access pairs examined")] += npairs
 		ex.stats.Covers["C03 shared accesses logged"] += len(c.accesses)
 		return npairs
+	}
+}
+
+func init() {
+	verifIntrinsics["verifConcDump"] = func(fr *frame, args []value) value {
+		c := fr.i.conc
+		if c == nil {
+			return nil
+		}
+		for _, a := range c.accesses {
+			for _, rec := range c.poolCell[a.addr] {
+				fmt.Printf("ACC t=%d idx=%d w=%v pos=%s rec={put %d@%d get %d@%d}\n", a.thread, a.idx, a.write, a.pos, rec.putThread, rec.putIdx, rec.getThread, rec.getIdx)
+			}
+		}
+		return nil
 	}
 }
